@@ -16,8 +16,14 @@ static void trunc_run(Ctx& c) {
     int pmode = PM_DEFAULT;     // truncation acts on blocks; a single block (symmetries ignored) is never discarded
     Pipeline p; p.build_all(m, pmode);
     const int N = p.N; const double beta = m.beta; const long dim = p.dim; const long nb = p.nblocks();
-    c.model = m.describe(); c.canon = m.canon() + "|eps=" + fmt(eps);
+    c.model = m.describe(); c.canon = m.canon() + "|eps=" + fmt(eps) + "|" + std::to_string(c.k % 97);
     Pomerol::DensityMatrix DMt(*p.S, *p.H, beta); DMt.prepare(); DMt.compute();
+    // the retain flags must reflect the LAST tolerance, whatever was requested before (and a repeated request changes nothing)
+    std::string seq = "single";
+    { int w = (int)r.range(0, 3);
+      if (w == 1) { DMt.truncateBlocks(std::min(0.3, eps * 1e4 + 1e-3), false); seq = "larger-first"; }
+      else if (w == 2) { DMt.truncateBlocks(eps * 1e-3, false); seq = "smaller-first"; }
+      else if (w == 3) { DMt.truncateBlocks(eps, false); seq = "repeated"; } }
     DMt.truncateBlocks(eps, false);
     Pomerol::DensityMatrix& DMf = *p.DM;
     // (1) retain rule
@@ -26,10 +32,10 @@ static void trunc_run(Ctx& c) {
         Pomerol::BlockNumber B((int)b); double wmax = 0; long sz = (long)p.S->getBlockSize(B);
         for (long s = 0; s < sz; ++s) wmax = std::max(wmax, DMf.getPart(B).getWeight((Pomerol::InnerQuantumState)s));
         bool ret = DMt.isRetained(B); if (!ret) ++discarded;
-        c.check("retain-rule", "C19:discarded-block-has-weight-above-eps", ret || wmax <= eps, [&] { return "block " + std::to_string(b) + " discarded although its largest weight is " + fmt(wmax) + " > eps=" + fmt(eps); });
+        c.check("retain-rule", "C19:discarded-block-has-weight-above-eps:" + seq, ret || wmax <= eps, [&] { return "block " + std::to_string(b) + " discarded although its largest weight is " + fmt(wmax) + " > eps=" + fmt(eps) + " (truncateBlocks sequence: " + seq + ")"; });
         c.check("untruncated-retained", "C19:untruncated-not-retained", DMf.isRetained(B), [&] { return std::string("isRetained false without truncateBlocks"); });
     }
-    c.features.set("N", N).set("eps", fmt(eps)).set("blocks", nb).set("discarded_blocks", discarded).set("discarded_any", discarded > 0);
+    c.features.set("sequence", seq).set("N", N).set("eps", fmt(eps)).set("blocks", nb).set("discarded_blocks", discarded).set("discarded_any", discarded > 0);
     std::string ek = eps == 0.0 ? "eps=0" : "eps>0";
     auto bound = [&](double b, cd a) { return eps == 0.0 ? 1e-15 * (1 + std::abs(a)) : b * (1 + 1e-9) + 1e-14 * (1 + std::abs(a)); };
     // (2) Green's functions
@@ -66,7 +72,7 @@ static void trunc_run(Ctx& c) {
         c.cmp("susceptibility-tau-bound", "C19:susceptibility-tau-bound:" + ek, y, x, bound(eps * dim, x), [&] { return "chi(tau) beta=" + fmt(beta) + " eps=" + fmt(eps); });
     }
     // (4) two-particle Green's function (small models only)
-    if (N <= 3 || (c.thorough() && N <= 4 && r.coin(0.3))) {
+    if (N <= 3 || (N <= 4 && r.coin(c.thorough() ? 0.6 : 0.5))) {
         for (int t = 0; t < 3; ++t) {
             int q[4] = {(int)r.range(0, N - 1), (int)r.range(0, N - 1), 0, 0}; if (t == 0) { q[2] = q[1]; q[3] = q[0]; } else { q[2] = (int)r.range(0, N - 1); q[3] = (int)r.range(0, N - 1); }
             auto mk = [&](Pomerol::DensityMatrix& D) { return new Pomerol::TwoParticleGF(*p.S, *p.H, p.Ops->getAnnihilationOperator((Pomerol::ParticleIndex)q[0]), p.Ops->getAnnihilationOperator((Pomerol::ParticleIndex)q[1]), p.Ops->getCreationOperator((Pomerol::ParticleIndex)q[2]), p.Ops->getCreationOperator((Pomerol::ParticleIndex)q[3]), D); };
